@@ -54,7 +54,8 @@ ProveStep(l0, e) ==
                       <<"serialised multiproof differs from the specification's proof", n, e.zs, e.numcpu, e.gomaxprocs>>, sig("bytes")) \o
                   One(e.next = TChallengeValue(ref.tr, LState), l0, "C03", <<"prover transcript state differs from the specification's", n>>, sig("transcript")) \o
                   One(~e.write_err, l0, "C10", "Write failed on a bytes.Buffer", sig("write"))
-        bad1 == One(e.inputs_unchanged, l0, "C13", "CreateMultiProof modified polynomials or indices", sig("inputs"))
+        bad1 == One(e.inputs_unchanged, l0, "C13", "CreateMultiProof modified polynomials or indices", sig("inputs")) \o
+                One(~Has(e, "arrival_forced") \/ e.arrival_observed = e.arrival_forced, l0, "DRIFT", "the forced arrival order of the grouping workers was not the observed one", sig("arrival"))
         h    == IF Has(e, "panic") \/ e.err THEN NoHon
                 ELSE [set |-> TRUE, Cs |-> after, zs |-> e.zs, ys |-> [i \in 1 .. n |-> ops[i].f[ops[i].z + 1]],
                       proof |-> ProofOf(e.proof), label |-> e.label, next |-> e.next, n |-> n]
@@ -146,7 +147,7 @@ Next ==
               /\ UNCHANGED <<bad, hon, ihon, cmc>> /\ cnt' = Bump(cnt, "config")
          [] e.ev = "prove" ->
               LET r == ProveStep(l, e) IN
-              /\ bad' = AddBad(bad, r[1]) /\ hon' = r[2] /\ cmc' = r[3] /\ cnt' = Bump(cnt, "prove") /\ UNCHANGED <<srs, ihon>>
+              /\ bad' = AddBad(bad, r[1]) /\ hon' = r[2] /\ cmc' = r[3] /\ cnt' = Bump(cnt, IF Has(e, "arrival_forced") THEN "prove/forced-arrival" ELSE "prove") /\ UNCHANGED <<srs, ihon>>
          [] e.ev = "verify" ->
               /\ bad' = AddBad(bad, VerifyDevs(l, e)) /\ cnt' = Bump(cnt, "verify/" \o e.what \o (IF e.ok THEN "/accepted" ELSE IF e.err THEN "/error" ELSE "/rejected"))
               /\ UNCHANGED <<srs, hon, ihon, cmc>>
